@@ -104,7 +104,7 @@ impl Engine for C13 {
     }
     fn budget(&self, tier: Tier) -> (u32, u32) {
         match tier {
-            Tier::Quick => (16, 300),
+            Tier::Quick => (16, 900),
             Tier::Thorough => (16, 6000),
         }
     }
